@@ -62,6 +62,9 @@ def rule_names(res):
 WHY_MISSED = {
     "C07_1": "prox_log_sum closed form: global optimality among stationary points is not claimed (§4 C07)",
     "C12_2": "neutralised by fix 712696b (the patched tree no longer misbehaves; kept for the record)",
+    "C10_3": "neutralised by fix 9fc02f6: solve() converts CSR, and nothing else on that branch reads the triple (demo passes with the change; the check is silent, as it must be)",
+    "C10_8": "neutralised by fix 9fc02f6 (same as C10_3)",
+    "C10_11": "neutralised by fix 9fc02f6: path()'s initialisation on the unconverted matrix is redone by _solve after solve() converted it",
     "C07_11": "prox_05 threshold constant: optimality among stationary candidates of a closed form is not claimed (§4 C07)",
     "C09_11": "Logistic.raw_hessian rewritten in an algebraically equal form that cancels in floating point (§4 C09)",
     "C06_12": "Cox forward recursion by subtraction: algebraically equal, catastrophic cancellation (§4 C06)",
